@@ -10,6 +10,7 @@ from ..core import Op
 from ..rat import rat, frac
 from .. import evalgen as G
 from .. import leanio
+from .. import tagpool as TP
 from .. import symtrace as st
 from ..symtrace import Sym
 
@@ -22,7 +23,9 @@ THEOREMS = [_T + n for n in [
     "C08_matcher_contract_checked", "C08_contract_from_C07", "C08_holds_cover_sound", "C08_holds_cover_model", "C08_clip_score_is_mean", "C08_means", "C08_scores_in_range", "C08_empty",
     # geometry layer (review): the matcher inside the model, overlap decided by end-point comparisons
     "C08_overlap_iff_affinity_pos", "C08_overlap_symm_total", "C08_geo_matcher_contract", "C08_geo_pairs_overlap",
-    "C08_judge_sound", "C08_judge_model", "C08_geo_detection"]]
+    "C08_judge_sound", "C08_judge_model", "C08_geo_detection",
+    # tag layer (follow-up 2): the class indices come from the model of the encoder (C19); the score clause by tag equality
+    "C08_tags_bridge", "C08_pair_score_is_class_probability", "C08_clip_pair_scores", "C08_classes_are_vocabulary_tags"]]
 LEVEL_TEXT = ("Lean theorems over the model of evaluate_clip / sound_event_detection hold for all inputs: evaluated clips = "
               "predictions whose clip id is annotated, in order; every annotated and predicted sound event (with or without "
               "geometry) is in exactly one match; the filtered->original index map is the order-preserving injection; a pair "
@@ -33,7 +36,12 @@ LEVEL_TEXT = ("Lean theorems over the model of evaluate_clip / sound_event_detec
               "'paired only if the geometries overlap' is proved with overlap defined by end-point comparisons "
               "(C08_overlap_iff_affinity_pos, C08_geo_pairs_overlap). The same comparison, evaluated in Lean "
               "(judgePairs, C08_judge_sound) on the matches sound_event_detection really returned, judges every reported "
-              "pair. Ties: the matcher's default buffers (table), symbolic traces of compute_affinity on two boxes, of "
+              "pair. Tags travel as content (term with all its fields, value): the class indices are computed by the Lean "
+              "model of the encoder (C19's `encode`, bridged to the first layer by C08_tags_bridge), and 'the score of a pair "
+              "is the probability the prediction gives to the annotation's class' is proved in terms of tag equality only "
+              "(C08_pair_score_is_class_probability: stored score of the last predicted tag equal to the annotation's first "
+              "vocabulary tag, 1 - sum over the vocabulary when it has none) and evaluated in that form on every reported pair. "
+              "Ties: the matcher's default buffers (table), symbolic traces of compute_affinity on two boxes, of "
               "compute_affinity_in_time and of evaluate_sound_event's score/affinity (all inputs), differential runs of "
               "sound_event_detection, evaluate_clip and iterate_over_valid_clips against both layers.")
 LEVEL_NOTE = ("Trusted: Lean kernel; scipy's assignment (only its pairs enter the model; contract ValidAssignment evaluated "
@@ -49,15 +57,23 @@ TECHNIQUE = ("Lean 4 proof over a two-layer model (matcher as parameter under a 
              "reported pair by closed-form overlap; executable property monitor on the real results")
 RULE = ("sound_event_detection end to end (0-4 evaluated clips, 0-4 annotated and predicted events per clip, geometry "
         "present/absent, boxes on a grid identical / overlapping / touching / disjoint along one or both axes / far apart, "
-        "time intervals, time stamps, points, lines and polygons on the same grid, vocabularies of 1-6 tags, "
+        "time intervals, time stamps, points, lines and polygons on the same grid, vocabularies of 1-6 tags over the legacy "
+        "pool (distinct values) or an adversarial pool (terms sharing label / name, differing in uri, definition or type "
+        "only, the deprecated key= spelling, same value under different terms, equal content at several pool positions, "
+        "near misses outside the vocabulary; always as new objects), detection confidences 0 / 1/4 / 1/2 / 1, clip-level "
+        "tags, twin clips (same recording and time window, other uuid), "
         "dyadic or one-hot non-dyadic scores with sum <= 1), evaluate_clip on exhaustive small clips, clip pairing on all "
         "small id lists; non-trivial = a result with at least one match; distinct = distinct (operation, input)")
 TRUSTED = ["scipy.optimize.linear_sum_assignment behind match_geometries: contracts MatcherCover and ValidAssignment evaluated on every answer",
            "shapely/GEOS: exact on rectangles (trace stub); measured directly for points, lines and polygons (monitored contract)",
-           "harness: resolves a tag to the encoder's answer by position in the vocabulary (C19 covers the encoder)"]
+           "harness: the content of a tag (every field of its term, its value) is read from the fields of an object built "
+           "like the ones handed to the code; class indices and expected pair scores come from the Lean model of the "
+           "encoder, never from the library's encoder"]
 ASSUMPTIONS = ["clip ids pairwise distinct within the prediction list and within the annotation list",
                "binary64 sums of the generated scores are exact (dyadic grids, or one non-dyadic float32 score per event)",
-               "the predicted scores of one sound event over the vocabulary sum to at most 1"]
+               "the predicted scores of one sound event over the vocabulary sum to at most 1",
+               "the vocabulary is a list of pairwise different tags and the predicted tags of one sound event are pairwise "
+               "different tags (difference = any field of the term or the value)"]
 NOT_COMPARED = ["run-level metrics and per-match metric lists (property C09)", "order of the matches within a clip",
                 "error messages, uuids"]
 
@@ -68,6 +84,21 @@ _TIME = {"TimeInterval", "TimeStamp"}
 _BUFFERED = {"TimeStamp", "Point", "MultiPoint", "LineString", "MultiLineString"}
 _DEFAULT_BUFFERS = (0.01, 100.0)
 _MEASURED = {}
+
+
+_MODEL_MEMO = {}
+
+
+def _model(ctx, op, args):
+    """a request to the Lean model, remembered: the model's operations are functions of their arguments and the
+    small clips of the grids repeat"""
+    from ..core import jkey
+    k = op + jkey(args)
+    if k not in _MODEL_MEMO:
+        if len(_MODEL_MEMO) > 50000:
+            _MODEL_MEMO.clear()
+        _MODEL_MEMO[k] = ctx.model(op, args)
+    return copy.deepcopy(_MODEL_MEMO[k])
 
 
 def _gtype(g):
@@ -129,6 +160,22 @@ def measured_affinity(g1, g2, tb, fb):
     return v
 
 
+def _tagreq(inp):
+    """the tag side of every model request: the pool as tag *contents* (read from the fields of the objects handed
+    to the code) and the vocabulary as pool positions; the class indices are computed by the Lean model of the
+    encoder, never by the library's"""
+    return {"pool": TP.model_pool(inp), "vocab": list(inp["vocab"])}
+
+
+def _mtags(e, pred):
+    """tags of a sound event for the model: pool positions; a predicted score as the float32 value stored"""
+    return [[t, G.f32(s)] for t, s in e["tags"]] if pred else list(e["tags"])
+
+
+def _mev(e, pred):
+    return {"id": e["id"], "geom": e["geom"] is not None, "tags": _mtags(e, pred)}
+
+
 def _both_closed(g1, g2):
     return _gtype(g1) in CLOSED and _gtype(g2) in CLOSED
 
@@ -136,15 +183,13 @@ def _both_closed(g1, g2):
 def _to_model_geo(inp):
     """request of `detection_geo`: geometries, the pairs the real matcher chose (the assignment solver's
     freedom), measured affinities for pairs without closed form"""
-    vocab = inp["vocab"]
     tb, fb = _buffers()
     ann_by = {}
     for c in inp["annotations"]:
         ann_by[c["clip"]] = c
 
     def ev(e, pred):
-        tags = [[G.enc(vocab, t), G.f32(s)] for t, s in e["tags"]] if pred else [G.enc(vocab, t) for t in e["tags"]]
-        return {"id": e["id"], "geom": G.geom_json(e["geom"]), "tags": tags}
+        return {"id": e["id"], "geom": G.geom_json(e["geom"]), "tags": _mtags(e, pred)}
     preds = []
     for c in inp["predictions"]:
         evs = c.get("events", [])
@@ -159,7 +204,7 @@ def _to_model_geo(inp):
                               for g1 in sg]
         preds.append(pc)
     anns = [{"clip": c["clip"], "events": [ev(e, False) for e in c.get("events", [])]} for c in inp["annotations"]]
-    return {"C": len(vocab), "tb": rat(tb), "fb": rat(fb), "predictions": preds, "annotations": anns}
+    return {**_tagreq(inp), "tb": rat(tb), "fb": rat(fb), "predictions": preds, "annotations": anns}
 
 
 def _compare_geo(inp, io, mo):
@@ -179,7 +224,7 @@ def _judge_clip(ctx, clip, pe, ae, matches):
     if not two:
         return None
     tb, fb = _buffers()
-    out = ctx.model("judge_pairs", {"tb": rat(tb), "pred_geoms": [G.geom_json(e["geom"]) for e in pe],
+    out = _model(ctx, "judge_pairs", {"tb": rat(tb), "pred_geoms": [G.geom_json(e["geom"]) for e in pe],
                                      "ann_geoms": [G.geom_json(e["geom"]) for e in ae],
                                      "matches": [[x["src"], x["tgt"]] for x in matches]})
     verdict = {(i, j): v for i, j, v in out["pairs"]}
@@ -196,7 +241,7 @@ def _judge_clip(ctx, clip, pe, ae, matches):
                     f"{_gtype(g2)} {g2 if not isinstance(g2, dict) else g2['coordinates']} share no time-frequency region "
                     f"(clip {clip} match {(i, j)}, reported affinity {G._fl(x['affinity'])})")
         if v == "overlap":
-            want = frac(ctx.model("affinity_cf", {"tb": rat(tb), "fb": rat(fb), "g1": G.geom_json(g1),
+            want = frac(_model(ctx, "affinity_cf", {"tb": rat(tb), "fb": rat(fb), "g1": G.geom_json(g1),
                                                   "g2": G.geom_json(g2)})["affinity"])
         else:   # no closed form: the monitored contract
             want = measured_affinity(g1, g2, tb, fb)
@@ -213,13 +258,60 @@ def _judge_clip(ctx, clip, pe, ae, matches):
 
 
 # ---------------------------------------------------------------- detection end to end
+def _positions(events, what):
+    """uuid -> position in the list handed to the code (the *input*, not what the result carries around)"""
+    out = {}
+    for i, e in enumerate(events):
+        out.setdefault(e.uuid, i)
+    return out
+
+
+def _canon_matches(matches, pidx, aidx, metrics=False):
+    ms = []
+    for m in matches:
+        x = {"src": None if m.source is None else pidx.get(m.source.uuid, "foreign"),
+             "tgt": None if m.target is None else aidx.get(m.target.uuid, "foreign"),
+             "affinity": G._num(m.affinity), "score": G._num(m.score)}
+        if metrics:
+            x["metrics"] = G._features(m.metrics)
+        ms.append(x)
+    return ms
+
+
 def _impl_detection(inp):
-    return {"val": G.canon_evaluation(G.run_task(inp))}
+    """`sound_event_detection` end to end; matches are located in the clips that were handed in"""
+    preds, anns, tags = G.build(inp)
+    with warnings.catch_warnings():
+        warnings.simplefilter("ignore")
+        ev = G.task_fn("sound_event_detection")(clip_predictions=preds, clip_annotations=anns, tags=tags)
+    clip_ids = {c.uuid: i for i, c in G._base()["clips"].items()}
+    pin = {c["clip"]: p for c, p in zip(inp["predictions"], preds)}
+    ain = {c["clip"]: a for c, a in zip(inp["annotations"], anns)}
+    clips = []
+    for ce in ev.clip_evaluations:
+        cid = clip_ids.get(ce.annotations.clip.uuid, "foreign")
+        pcid = clip_ids.get(ce.predictions.clip.uuid, "foreign")
+        pidx = _positions(pin[pcid].sound_events, "p") if pcid in pin else {}
+        aidx = _positions(ain[cid].sound_events, "a") if cid in ain else {}
+        clips.append({"clip": cid, "pclip": pcid, "metrics": G._features(ce.metrics), "score": G._num(ce.score),
+                      "matches": _canon_matches(ce.matches, pidx, aidx, metrics=True)})
+    return {"val": {"task": ev.evaluation_task, "metrics": G._features(ev.metrics), "score": G._num(ev.score),
+                    "clips": clips}}
 
 
 def _to_model_detection(inp):
-    req = G.to_model(inp)
-    return {"C": req["C"], "predictions": req["predictions"], "annotations": req["annotations"]}
+    ann_by = {}
+    for c in inp["annotations"]:
+        ann_by[c["clip"]] = c
+    preds = []
+    for c in inp["predictions"]:
+        pc = {"clip": c["clip"], "events": [_mev(e, True) for e in c.get("events", [])]}
+        a = ann_by.get(c["clip"])
+        if a is not None:
+            pc["matcher"] = G.matcher_answer(c.get("events", []), a.get("events", []))
+        preds.append(pc)
+    anns = [{"clip": c["clip"], "events": [_mev(e, False) for e in c.get("events", [])]} for c in inp["annotations"]]
+    return {**_tagreq(inp), "predictions": preds, "annotations": anns}
 
 
 def _compare_detection(inp, io, mo):
@@ -230,6 +322,8 @@ def _compare_detection(inp, io, mo):
 
 
 def all_unlabelled(inp):
+    pool = TP.descriptors(inp)
+    classes = {TP.ckey(pool[t]) for t in inp["vocab"]}
     annotated = {c["clip"]: c for c in inp["annotations"]}
     n = 0
     for c in inp["predictions"]:
@@ -238,21 +332,26 @@ def all_unlabelled(inp):
             continue
         n += len(c.get("events", [])) + len(a.get("events", []))
         for e in a.get("events", []):
-            if any(t in inp["vocab"] for t in e["tags"]):
+            if any(TP.ckey(pool[t]) in classes for t in e["tags"]):
                 return False
     return n > 0
 
 
-def _class_probability(vocab, ann_tags, pred_tags):
-    """probability the prediction gives to the annotation's class (independent of the model)"""
-    scores = {}
-    for t, s in pred_tags:
-        if t in vocab:
-            scores[t] = Fraction(float(np.float32(float(frac(s)))))
-    cls = next((t for t in ann_tags if t in vocab), None)
-    if cls is None:
-        return 1 - sum(scores.values())
-    return scores.get(cls, Fraction(0))
+def _pair_scores(ctx, inp, pairs):
+    """'the probability the prediction gives to the annotation's class' for (annotated event, predicted event)
+    pairs: `pairScoreSpec` of the Lean model (tag equality only; C08_pair_score_is_class_probability)"""
+    if not pairs:
+        return []
+    out = ctx.model("pair_score", {**_tagreq(inp), "pairs": [{"ann": _mtags(a, False), "pred": _mtags(p, True)}
+                                                              for a, p in pairs]})
+    return [frac(x["score"]) for x in out]
+
+
+def _foreign(matches, clip):
+    for x in matches:
+        if x["src"] == "foreign" or x["tgt"] == "foreign":
+            return f"a match names a sound event that is not in the clip that was evaluated (clip {clip})"
+    return None
 
 
 def _holds_detection(ctx, inp, io):
@@ -269,35 +368,46 @@ def _holds_detection_inner(ctx, inp, io):
     if "raise" in io:
         return f"sound_event_detection raised ({io['raise']})"
     ev = io["val"]
-    vocab = inp["vocab"]
     annotated = {c["clip"]: c for c in inp["annotations"]}
     expected = [c["clip"] for c in inp["predictions"] if c["clip"] in annotated]
     if [c["clip"] for c in ev["clips"]] != expected:
         return f"evaluated clips are not the predicted clips that are annotated: {[c['clip'] for c in ev['clips']]} instead of {expected}"
     pred_by = {c["clip"]: c for c in inp["predictions"]}
     clip_scores = []
+    # the expected score of every reported pair, in one request to the model
+    allp = []
+    for c in ev["clips"]:
+        if c["pclip"] != c["clip"] or _foreign(c["matches"], c["clip"]):
+            continue
+        pe, ae = pred_by[c["clip"]].get("events", []), annotated[c["clip"]].get("events", [])
+        allp += [(c["clip"], x["src"], x["tgt"], ae[x["tgt"]], pe[x["src"]]) for x in c["matches"]
+                 if x["src"] is not None and x["tgt"] is not None]
+    wants = dict(zip(((k, i, j) for k, i, j, _, _ in allp), _pair_scores(ctx, inp, [(a, p) for _, _, _, a, p in allp])))
     for c in ev["clips"]:
         if c["pclip"] != c["clip"]:
             return f"clip evaluation pairs annotations and predictions of different clips (clip {c['clip']})"
         pe = pred_by[c["clip"]].get("events", [])
         ae = annotated[c["clip"]].get("events", [])
+        msg = _foreign(c["matches"], c["clip"])
+        if msg:
+            return msg
         # the monitored contract of the matcher on this clip's filtered lists
         m = G.matcher_answer(pe, ae)
-        ok = ctx.model("matcher_cover", {"n": sum(1 for e in pe if e["geom"] is not None),
+        ok = _model(ctx, "matcher_cover", {"n": sum(1 for e in pe if e["geom"] is not None),
                                          "m": sum(1 for e in ae if e["geom"] is not None), "matcher": m})
         ctx.contract("MatcherCover", ok, inp, m, "match_geometries does not cover its inputs exactly once "
                                                  "with affinities in [0,1] (0 on one-sided entries)")
         # the only part of the matcher that stays a parameter of the geometry layer: the solver's pairs
         ng, mg = sum(1 for e in pe if e["geom"] is not None), sum(1 for e in ae if e["geom"] is not None)
         pairs = [[s, t] for s, t, _ in m if s is not None and t is not None]
-        ctx.contract("ValidAssignment", ctx.model("valid_assignment", {"n": ng, "m": mg, "pairs": pairs}), inp, pairs,
+        ctx.contract("ValidAssignment", _model(ctx, "valid_assignment", {"n": ng, "m": mg, "pairs": pairs}), inp, pairs,
                      "the pairs chosen by the matcher are not a partial injection of the source into the target positions")
         msg = _judge_clip(ctx, c["clip"], pe, ae, c["matches"])
         if msg:
             return msg
         # "every annotated and every predicted sound event appears in exactly one match", through the
         # Lean-side statement whose meaning is fixed by C08_holds_cover_sound
-        if not ctx.model("holds_cover", {"n_pred": len(pe), "n_ann": len(ae),
+        if not _model(ctx, "holds_cover", {"n_pred": len(pe), "n_ann": len(ae),
                                          "matches": [[x["src"], x["tgt"]] for x in c["matches"]]}):
             srcs = sorted(x["src"] for x in c["matches"] if x["src"] is not None)
             tgts = sorted(x["tgt"] for x in c["matches"] if x["tgt"] is not None)
@@ -319,7 +429,7 @@ def _holds_detection_inner(ctx, inp, io):
                     return f"paired sound events do not overlap: affinity {float(real)} (clip {c['clip']} match {(x['src'], x['tgt'])})"
                 if aff != real:
                     return f"match affinity is not the geometric affinity: {float(aff)} instead of {float(real)} (clip {c['clip']} match {(x['src'], x['tgt'])})"
-                want = _class_probability(vocab, a["tags"], p["tags"])
+                want = wants[(c["clip"], x["src"], x["tgt"])]
                 if sc != want:
                     return f"match score is not the probability of the annotation's class: {sc} instead of {want} (clip {c['clip']} match {(x['src'], x['tgt'])})"
             else:
@@ -344,32 +454,28 @@ def _impl_eval_clip(inp):
     import importlib
     D = importlib.import_module("soundevent.evaluation.tasks.sound_event_detection")
     from soundevent.evaluation.encoding import create_tag_encoder
-    full = {"task": "sound_event_detection", "vocab": inp["vocab"],
+    full = {"task": "sound_event_detection", "vocab": inp["vocab"], "tagpool": inp.get("tagpool"),
             "predictions": [{"clip": 0, "events": inp["preds"]}], "annotations": [{"clip": 0, "events": inp["anns"]}]}
     preds, anns, tags = G.build(full)
     with warnings.catch_warnings():
         warnings.simplefilter("ignore")
         ys, rows, ce = D.evaluate_clip(clip_annotations=anns[0], clip_predictions=preds[0], encoder=create_tag_encoder(tags))
-    pidx = {p.uuid: i for i, p in enumerate(ce.predictions.sound_events)}
-    aidx = {a.uuid: i for i, a in enumerate(ce.annotations.sound_events)}
+    pidx = _positions(preds[0].sound_events, "p")
+    aidx = _positions(anns[0].sound_events, "a")
     entries = []
     if not (len(ys) == len(rows) == len(ce.matches)):
         return {"val": {"entries": "length mismatch", "score": None}}
-    for y, row, m in zip(ys, rows, ce.matches):
-        entries.append({"src": None if m.source is None else pidx[m.source.uuid],
-                        "tgt": None if m.target is None else aidx[m.target.uuid],
-                        "affinity": G._num(m.affinity), "score": G._num(m.score),
-                        "y": None if y is None else int(y), "row": [G._num(v) for v in np.asarray(row).tolist()]})
+    for y, row, x in zip(ys, rows, _canon_matches(ce.matches, pidx, aidx)):
+        x["y"] = None if y is None else int(y)
+        x["row"] = [G._num(v) for v in np.asarray(row).tolist()]
+        entries.append(x)
+    if any(x["src"] == "foreign" or x["tgt"] == "foreign" for x in entries):
+        return {"val": {"entries": "foreign", "score": None}}
     return {"val": {"entries": sorted(entries, key=G.match_key), "score": G._num(ce.score)}}
 
 
 def _to_model_eval_clip(inp):
-    vocab = inp["vocab"]
-    return {"C": len(vocab),
-            "preds": [{"id": e["id"], "geom": e["geom"] is not None, "tags": [[G.enc(vocab, t), G.f32(s)] for t, s in e["tags"]]}
-                      for e in inp["preds"]],
-            "anns": [{"id": e["id"], "geom": e["geom"] is not None, "tags": [G.enc(vocab, t) for t in e["tags"]]}
-                     for e in inp["anns"]],
+    return {**_tagreq(inp), "preds": [_mev(e, True) for e in inp["preds"]], "anns": [_mev(e, False) for e in inp["anns"]],
             "matcher": G.matcher_answer(inp["preds"], inp["anns"])}
 
 
@@ -378,6 +484,8 @@ def _compare_eval_clip(inp, io, mo):
         a = {k: v for k, v in io.items() if k != "trace"}
         return None if a == mo else f"implementation {a} but model {mo}"
     a, b = io["val"], mo["val"]
+    if a["entries"] == "foreign":
+        return "a match names a sound event that is not in the clip that was evaluated"
     if not isinstance(a["entries"], list):
         return "evaluate_clip returns lists of different lengths"
     be = sorted(b["entries"], key=G.match_key)
@@ -404,7 +512,16 @@ def _holds_eval_clip(ctx, inp, io):
         return f"evaluate_clip raised ({io['raise']})"
     try:
         if isinstance(io["val"]["entries"], list):
-            return _judge_clip(ctx, 0, inp["preds"], inp["anns"], io["val"]["entries"])
+            es = io["val"]["entries"]
+            msg = _judge_clip(ctx, 0, inp["preds"], inp["anns"], es)
+            if msg:
+                return msg
+            two = [x for x in es if x["src"] is not None and x["tgt"] is not None]
+            wants = _pair_scores(ctx, inp, [(inp["anns"][x["tgt"]], inp["preds"][x["src"]]) for x in two])
+            for x, want in zip(two, wants):
+                if x["score"] in (None, "nan") or frac(x["score"]) != want:
+                    return (f"match score is not the probability of the annotation's class: {G._fl(x['score'])} instead of "
+                            f"{float(want)} (match {(x['src'], x['tgt'])})")
     except leanio.InfraError:
         raise
     except Exception as e:  # noqa: BLE001
@@ -442,13 +559,95 @@ OPS = {
 
 
 # ---------------------------------------------------------------- generators
+def _distinct_predicted(pool, clips):
+    """the predicted tags of one sound event are pairwise different tags (where two of them are the same tag
+    with different scores the property does not say which score is 'the' probability)"""
+    for c in clips:
+        for e in c.get("events", []):
+            seen, keep = set(), []
+            for t, sc in e["tags"]:
+                k = TP.ckey(pool[t])
+                if k not in seen:
+                    seen.add(k)
+                    keep.append([t, sc])
+            e["tags"] = keep
+
+
+def _decorate(rng, inp):
+    """what the property does not mention must not matter: the detection confidence of a predicted sound event
+    (`SoundEventPrediction.score`: 0, 1/4, 1/2 or 1) and clip-level tags on either side"""
+    ids = list(range(len(TP.descriptors(inp))))
+    for c in inp["predictions"]:
+        for e in c.get("events", []):
+            if rng.random() < 0.5:
+                e["conf"] = rng.choice(["0", "1/4", "1/2", "1"])
+        if rng.random() < 0.25:
+            c["tags"] = G.single_label_scores(rng, ids)
+    for c in inp["annotations"]:
+        if rng.random() < 0.25:
+            c["tags"] = G.true_tags(rng, ids)
+    return inp
+
+
+def _pooled(rng, make, lo=1, hi=5):
+    """an evalgen detection input over the legacy pool (30 %), an adversarial tag pool, or the three-taxa pool"""
+    return _decorate(rng, _pooled_plain(rng, make, lo, hi))
+
+
+def _pooled_plain(rng, make, lo, hi):
+    r = rng.random()
+    if r < 0.3:
+        return make(G.gen_vocab(rng, lo, hi))
+    if r < 0.45:
+        pool = [dict(d) for d in TP.TAXA]
+        vocab = [0, 1, 2] + rng.sample([3, 4, 5, 7], rng.choice([0, 0, 1, 2]))
+        rng.shuffle(vocab)
+    else:
+        pool = TP.gen_pool(rng)
+        vocab = G.gen_vocab(rng, lo, hi + 1)
+    inp = make(TP.dedupe_ids(pool, vocab))
+    inp["tagpool"] = pool
+    _distinct_predicted(pool, inp["predictions"])
+    return inp
+
+
+def _tag_tallies(ctx, inp):
+    if inp.get("tagpool") is None:
+        ctx.tally("tags:pool=legacy")
+        return
+    ctx.tally("tags:pool=adversarial")
+    pool = [TP.content(d) for d in inp["tagpool"]]
+    lv = lambda t: (t["term"]["label"], t["value"])  # noqa: E731
+    nv = lambda t: (t["term"]["name"], t["value"])  # noqa: E731
+    voc = [pool[t] for t in inp["vocab"]]
+    vkeys = {TP.jkey(t) for t in voc}
+    if len({lv(t) for t in voc}) < len(voc):
+        ctx.tally("tags:vocabulary-classes-share-label-and-value")
+    if len({nv(t) for t in voc}) < len(voc):
+        ctx.tally("tags:vocabulary-classes-share-name-and-value")
+    used = [pool[t] for side in ("annotations", "predictions") for c in inp.get(side, []) for e in c.get("events", [])
+            for t in (x[0] if isinstance(x, list) else x for x in e["tags"])]
+    if any(TP.jkey(t) not in vkeys and (lv(t) in {lv(v) for v in voc} or nv(t) in {nv(v) for v in voc}) for t in used):
+        ctx.tally("tags:near-miss-outside-vocabulary")
+
+
 def gen_detection(rng):
-    inp = G.gen_detection(rng, n_clips=rng.choice([0, 1, 1, 2, 3, 4]), vocab=G.gen_vocab(rng, 1, 5))
+    inp = _pooled(rng, lambda vocab: G.gen_detection(rng, n_clips=rng.choice([0, 1, 1, 2, 3, 4]), vocab=vocab))
     r = rng.random()
     if r < 0.03:
         inp["predictions"] = []
     elif r < 0.06:
         inp["annotations"] = []
+    elif r < 0.2 and inp["predictions"]:
+        # a twin: another clip (own uuid) over the same recording and time window as a predicted clip, on one side
+        src = rng.choice(inp["predictions"])
+        side = rng.choice(["predictions", "annotations"])
+        if side == "predictions":
+            twin = {"clip": src["clip"] + 100, "events": copy.deepcopy(src["events"])}
+        else:
+            twin = {"clip": src["clip"] + 100, "events": [{"id": 900 + i, "geom": e["geom"], "tags": [t for t, _ in e["tags"]][:1]}
+                                                          for i, e in enumerate(src["events"])]}
+        inp[side].insert(rng.randint(0, len(inp[side])), twin)
     return inp
 
 
@@ -489,7 +688,7 @@ def _retype(rng, box, kinds):
 def gen_geo(rng):
     """detection inputs over all the geometry types `evaluate_clip` can meet, with boxes that are disjoint
     along both axes placed next to annotated ones"""
-    inp = G.gen_detection(rng, n_clips=rng.choice([1, 1, 2, 3]), vocab=G.gen_vocab(rng, 1, 5))
+    inp = _pooled(rng, lambda vocab: G.gen_detection(rng, n_clips=rng.choice([1, 1, 2, 3]), vocab=vocab))
     ann_by = {c["clip"]: c for c in inp["annotations"]}
     for c in inp["annotations"]:
         for e in c["events"]:
@@ -510,7 +709,13 @@ def gen_geo(rng):
     return inp
 
 
-def _exhaustive_clips():
+# tags 0 and 1 are two classes that differ only in the name of the term (same label, same value); tag 2 is outside
+# the vocabulary and differs from tag 0 only in the uri of the term
+_NEAR_POOL = [{"term": TP.T_GBIF, "value": "Turdus"}, {"term": TP.T_EBIRD, "value": "Turdus"},
+              {"term": TP.T_URI, "value": "Turdus"}]
+
+
+def _exhaustive_clips(tagpool=None):
     """0-2 predicted x 0-2 annotated events, geometry absent / A / B / C / D, fixed tags"""
     geoms = [None, "A", "B", "D", "E"]
     ptags = [[[0, "3/4"], [1, "1/8"]], [[1, "1/2"]]]
@@ -519,14 +724,20 @@ def _exhaustive_clips():
         for nann in range(3):
             for pg in itertools.product(geoms, repeat=npred):
                 for ag in itertools.product([None, "A", "C"], repeat=nann):
-                    yield {"vocab": [0, 1],
-                           "preds": [{"id": i, "geom": _BOXES.get(g), "tags": ptags[i % 2]} for i, g in enumerate(pg)],
-                           "anns": [{"id": 10 + j, "geom": _BOXES.get(g), "tags": atags[j % 2]} for j, g in enumerate(ag)]}
+                    case = {"vocab": [0, 1],
+                            "preds": [{"id": i, "geom": _BOXES.get(g), "tags": ptags[i % 2]} for i, g in enumerate(pg)],
+                            "anns": [{"id": 10 + j, "geom": _BOXES.get(g), "tags": atags[j % 2]} for j, g in enumerate(ag)]}
+                    if tagpool is not None:
+                        case["tagpool"] = tagpool
+                    yield case
 
 
 def gen_clip(rng):
-    d = G.gen_detection(rng, n_clips=1, vocab=G.gen_vocab(rng, 1, 5))
-    return {"vocab": d["vocab"], "preds": d["predictions"][0]["events"], "anns": d["annotations"][0]["events"]}
+    d = _pooled(rng, lambda vocab: G.gen_detection(rng, n_clips=1, vocab=vocab))
+    out = {"vocab": d["vocab"], "preds": d["predictions"][0]["events"], "anns": d["annotations"][0]["events"]}
+    if d.get("tagpool") is not None:
+        out["tagpool"] = d["tagpool"]
+    return out
 
 
 def _pair_cases(rng, n):
@@ -536,8 +747,16 @@ def _pair_cases(rng, n):
     for p in lists:
         for a in lists:
             yield {"predictions": p, "annotations": a}
+    # twins: clips 100 and 101 are other clips (own uuid) over the recording and time window of clips 0 and 1
+    tw = [list(p) for k in range(4) for p in itertools.permutations([0, 100, 1], k)]
+    for p in tw:
+        for a in tw:
+            yield {"predictions": p, "annotations": a}
     for _ in range(n):
         p, a = G.clip_ids(rng, rng.randint(0, 5), rng.randint(0, 3), rng.randint(0, 3))
+        if rng.random() < 0.3:
+            p = [x + 100 if rng.random() < 0.3 else x for x in p]
+            a = [x + 100 if rng.random() < 0.3 else x for x in a]
         yield {"predictions": p, "annotations": a}
 
 
@@ -557,6 +776,7 @@ FINDING_MATCHERS = {"detection_no_labelled_truth": _f_no_labelled_truth}
 def _stage_detection(ctx, n):
     cases = [gen_detection(ctx.rng) for _ in range(n)]
     for c in cases:
+        _tag_tallies(ctx, c)
         ctx.tally(f"detection:clips={len(c['predictions'])}/{len(c['annotations'])}")
         for pc in c["predictions"]:
             for e in pc["events"]:
@@ -565,11 +785,17 @@ def _stage_detection(ctx, n):
 
 
 def _stage_clips(ctx, n):
-    ex = list(_exhaustive_clips())
+    ex = list(_exhaustive_clips()) + list(_exhaustive_clips(_NEAR_POOL))
     ctx.run_cases(OPS["eval_clip"], ex)
     ctx.exhaustive["evaluate_clip"] = (f"{len(ex)} clips: 0-2 predicted x 0-2 annotated events, geometry of each in "
-                                       "{none, A, half-overlapping B, touching C, far D}")
-    ctx.run_cases(OPS["eval_clip"], [gen_clip(ctx.rng) for _ in range(n)])
+                                       "{none, A, half-overlapping B, touching C, far D, diagonal E}, over the legacy tags "
+                                       "and over two classes that differ only in the term's name plus a near miss "
+                                       "(other uri) outside the vocabulary")
+    cases = [gen_clip(ctx.rng) for _ in range(n)]
+    for c in cases:
+        _tag_tallies(ctx, {"tagpool": c.get("tagpool"), "vocab": c["vocab"],
+                           "predictions": [{"events": c["preds"]}], "annotations": [{"events": c["anns"]}]})
+    ctx.run_cases(OPS["eval_clip"], cases)
 
 
 def _stage_geo(ctx, n):
@@ -753,19 +979,48 @@ def _symbolic_ties(ctx):
         def __getattr__(self, k):
             return getattr(real_data, k)
 
+    # the helper is called by parameter name, whatever its current signature: the encodings either through the
+    # (stubbed) encoding functions or handed in directly; a parameter this tie does not know -> nothing to trace
+    import inspect
+    try:
+        params = inspect.signature(D.evaluate_sound_event).parameters
+    except (TypeError, ValueError):
+        params = {}
+    known = {"sound_event_prediction", "sound_event_annotation", "encoder", "affinity", "true_class",
+             "predicted_class_scores"}
+    unknown = [n for n, q in params.items() if n not in known and q.default is inspect.Parameter.empty
+               and q.kind not in (inspect.Parameter.VAR_POSITIONAL, inspect.Parameter.VAR_KEYWORD)]
+    if not params or unknown or "affinity" not in params:
+        ctx.note("symbolic ties ext_pair_score_* skipped: evaluate_sound_event has a signature this tie does not know "
+                 f"({list(params)})")
+        return
+
+    def _find_match(r):
+        if hasattr(r, "score") and hasattr(r, "affinity"):
+            return r
+        if isinstance(r, (tuple, list)):
+            for x in r:
+                if hasattr(x, "score") and hasattr(x, "affinity"):
+                    return x
+        raise ValueError("evaluate_sound_event returns no match")
+
     for k in (None, 0, 1, 2):
         def run_score(k=k):
-            saved = (D.data, D.classification_encoding, D.prediction_encoding)
+            saved = {n: getattr(D, n) for n in ("data", "classification_encoding", "prediction_encoding") if hasattr(D, n)}
             D.data = _DataStub()
             D.classification_encoding = lambda tags, encoder: k
             D.prediction_encoding = lambda tags, encoder: _Row([ry["r0"], ry["r1"], ry["r2"]])
             try:
-                _y, _row, m = D.evaluate_sound_event(sound_event_prediction=_Rec(tags=[]),
-                                                     sound_event_annotation=_Rec(tags=[]), encoder=None,
-                                                     affinity=ry["a"])
+                kw = {"sound_event_prediction": _Rec(tags=[]), "sound_event_annotation": _Rec(tags=[]), "encoder": None,
+                      "affinity": ry["a"], "true_class": k, "predicted_class_scores": _Row([ry["r0"], ry["r1"], ry["r2"]])}
+                m = _find_match(D.evaluate_sound_event(**{n: v for n, v in kw.items() if n in params}))
                 return (m.score, m.affinity)
             finally:
-                D.data, D.classification_encoding, D.prediction_encoding = saved
+                for n in ("data", "classification_encoding", "prediction_encoding"):
+                    if n in saved:
+                        setattr(D, n, saved[n])
+                    elif hasattr(D, n):
+                        delattr(D, n)
         name = "ext_pair_score_" + ("none" if k is None else str(k))
         y = "none" if k is None else f"(some {k})"
         ctx.sym_tie(name, run_score, RV, "Rat × Rat", f"some (SE.Metrics.tcp ⟨{y}, [r0, r1, r2]⟩, a)",
@@ -776,7 +1031,8 @@ def _symbolic_ties(ctx):
 
 def _stage_pairing(ctx, n):
     ctx.run_cases(OPS["pair_clips"], list(_pair_cases(ctx.rng, n)))
-    ctx.exhaustive["pair_clips"] = "all pairs of duplicate-free id lists over {0,1,2} (16 x 16 orders)"
+    ctx.exhaustive["pair_clips"] = ("all pairs of duplicate-free id lists over {0,1,2} (16 x 16 orders) and over {0, twin of 0, 1} "
+                                    "(a twin: another clip over the same recording and time window)")
 
 
 def run(ctx):
@@ -793,4 +1049,4 @@ def run(ctx):
 def search(ctx, failures):
     ctx.run_cases(OPS["detection_geo"], [gen_geo(ctx.rng) for _ in range(300)])
     ctx.run_cases(OPS["detection"], [gen_detection(ctx.rng) for _ in range(300)])
-    ctx.run_cases(OPS["eval_clip"], list(_exhaustive_clips()))
+    ctx.run_cases(OPS["eval_clip"], list(_exhaustive_clips()) + list(_exhaustive_clips(_NEAR_POOL)))
